@@ -21,7 +21,7 @@ def render(content, lay):
 
     def head(h):
         if lay['blanks']:
-            out.append('\n')
+            out.append(lay.get('blank_fill', '') + '\n')       # a blank line: empty, or nothing but spaces / tabs
         out.append(h + '\n')
         if lay['comments']:
             out.append(lay.get('comment_indent', '') + '#MNEM.UNIT      VALUE : DESCRIPTION\n')
@@ -52,6 +52,8 @@ def render(content, lay):
                 out.append(' ' * lay['lead'] + sep.join(rest[i:i + k]) + '\n')
         if lay['comments'] and fr is content['frames'][0]:
             out.append(lay.get('comment_indent', '') + '# a comment between data rows\n')
+        if lay['blanks']:
+            out.append(lay.get('blank_fill', '') + '\n')       # blank lines between (and after) the data rows too
     return ''.join(out)
 
 
